@@ -393,7 +393,7 @@ fn judge_scene(sc: &Scene, alpha: &[El], order: &[Vec<u8>], results: &HashMap<Ve
     let k = sc.view.k;
     let label = format!("{}:{}", sc.route, sc.view.label);
     let mut flagged: BTreeSet<Vec<u8>> = BTreeSet::new();
-    let mut flag = |rep: &mut Report, flagged: &mut BTreeSet<Vec<u8>>, s: &[u8], res: &Res, why: String| {
+    let flag = |rep: &mut Report, flagged: &mut BTreeSet<Vec<u8>>, s: &[u8], res: &Res, why: String| {
         if !flagged.insert(s.to_vec()) {
             return;
         }
@@ -427,6 +427,7 @@ fn judge_scene(sc: &Scene, alpha: &[El], order: &[Vec<u8>], results: &HashMap<Ve
                 None => String::new(),
             }
         );
+        rep.add_extra(&format!("flagged[{}] {key}", sc.route), 1);
         rep.violation(&key, what, replay_json(sc, alpha, s));
     };
     for s in order {
